@@ -201,7 +201,7 @@ class SetextHeading(BlockToken):
     def __init__(self, lines):
         self.underline = lines.pop().rstrip()
         self.level = 1 if self.underline.endswith('=') else 2
-        content = '\n'.join([line.strip() for line in lines])
+        content = ''.join([line.lstrip() for line in lines]).strip()
         super().__init__(content, span_token.tokenize_inner)
 
     @classmethod
